@@ -27,6 +27,8 @@ SHAPES = {1: [5], 2: [2, 3], 3: [2, 3, 4], 4: [2, 3, 4, 5]}
 def parse_docs_tables():
     """The two compatibility tables of docs/readcode.rst -> (types, ndim)."""
     p = os.path.join(REPO, 'docs', 'readcode.rst')
+    if not os.path.exists(p):          # a checkout that carries only the package: use the tables of /repo
+        p = '/repo/docs/readcode.rst'
     with open(p, encoding='utf-8') as f:
         lines = f.read().splitlines()
     tables = []
@@ -44,8 +46,9 @@ def parse_docs_tables():
     if len(tables) < 2:
         raise HarnessError('compatibility tables not found in docs/readcode.rst')
     types, nd = tables[0], tables[1]
-    tt = {nt: {h: bool(c) for h, c in zip(types['header'], row)} for nt, row in types['rows'].items()}
-    ndt = {k: {h: bool(c) for h, c in zip(nd['header'], row)} for k, row in nd['rows'].items()}
+    # a cell offers the language iff it carries the mark 'X' (X, X*, X**, X(1)); empty, '-', 'no' ... do not
+    tt = {nt: {h: 'X' in c.upper() for h, c in zip(types['header'], row)} for nt, row in types['rows'].items()}
+    ndt = {k: {h: 'X' in c.upper() for h, c in zip(nd['header'], row)} for k, row in nd['rows'].items()}
     return tt, ndt
 
 
@@ -80,6 +83,19 @@ def make_values(shape, dtype, vseed):
     return a
 
 
+def snippet_result_var(code, lang, default='a'):
+    """the variable a snippet binds the array to: read from the text, not assumed"""
+    if lang == 'python':
+        m = re.search(r'(\w+)\s*=\s*array\.array', code)
+        return m.group(1) if m else default
+    lines = [l for l in code.splitlines() if l.strip()]
+    for l in reversed(lines):
+        m = re.match(r'\s*(\w+)\s*(?:<-|:=|=)(?!=)', l)
+        if m:
+            return m.group(1)
+    return default
+
+
 def exec_python_snippet(code, cwd, placeholder_target=None):
     """Really execute a Python-family snippet with the given working directory."""
     old = os.getcwd()
@@ -87,7 +103,9 @@ def exec_python_snippet(code, cwd, placeholder_target=None):
     link = None
     try:
         if placeholder_target is not None:
-            link = os.path.join(cwd, 'path_to_data_dir')
+            # the darr snippet names a placeholder for the directory: make that name resolve
+            m = re.search(r'(?:Array|RaggedArray)\(\s*(?:path\s*=\s*)?[\'"]([^\'"]+)[\'"]', code)
+            link = os.path.join(cwd, m.group(1) if m else 'path_to_data_dir')
             if not os.path.lexists(link):
                 os.symlink(placeholder_target, link)
         ns = {}
@@ -298,16 +316,17 @@ class ArrayReadCode(Engine):
         if lang != 'darr' and want_path not in code:
             raise Viol('readcode.path', f'{lang}:requested_path_not_used', f'wanted {want_path!r}')
         try:
-            ns = exec_python_snippet(code + ('\n__r = a[:]\n' if lang == 'darr' else ''), cwd,
+            var = snippet_result_var(code, lang)
+            ns = exec_python_snippet(code + (f'\n__r = {var}[:]\n' if lang == 'darr' else ''), cwd,
                                      placeholder_target=path if lang == 'darr' else None)
         except Exception as e:
             if empty:
                 st['probes']['l1_raises_on_empty_array'] = st['probes'].get('l1_raises_on_empty_array', 0) + 1
                 return
             raise Viol('readcode.l1_exec', f'{lang}:{type(e).__name__}', str(e)[:200])
-        if 'a' not in ns:
-            raise Viol('readcode.l1_exec', f'{lang}:variable_a_unbound', '')
-        got = ns['a']
+        if var not in ns:
+            raise Viol('readcode.l1_exec', f'{lang}:result_variable_unbound', var)
+        got = ns[var]
         if lang == 'python':
             flat = model.ravel()
             if model.dtype.kind == 'c':
@@ -343,7 +362,7 @@ class ArrayReadCode(Engine):
 
     def _l2(self, lang, code, cwd, model, want_path, st):
         try:
-            res = F.run_array_snippet(lang, code, cwd)
+            res = F.run_array_snippet(lang, code, cwd, varname=snippet_result_var(code, lang))
         except F.IllFormed as e:
             raise Viol('readcode.l2_illformed', f'{lang}:{str(e).split(":")[1] if ":" in str(e) else str(e)[:30]}', str(e)[:300])
         except F.LangRuntimeError as e:
@@ -588,29 +607,41 @@ class RaggedReadCode(Engine):
         emit({'dtype': D.dtstr(dtype), 'atom': list(atom), 'lens': [x.shape[0] for x in L], 'it': it, 'mode': mode, 'offered': offered})
 
     def check_example(self, lang, k_comment, position, bound, value, error, L, conv, st):
+        """the example statement binds an existing subarray - the one the snippet states, where it states one
+        in a form we can read (a position word and/or 'k = N' in a comment); wording is not demanded"""
         n = len(L)
-        if k_comment is None:
-            raise Viol('readcode.example', f'{lang}:no_example_comment', '')
-        k0 = k_comment - ORIGIN[lang]
-        if not (0 <= k0 < n):
-            raise Viol('readcode.example', f'{lang}:states_nonexisting_subarray', f'k={k_comment} n={n}')
-        if position is not None and POSITION.get(k0) != position:
-            raise Viol('readcode.example', f'{lang}:position_word_disagrees_with_k', f'{position} vs k={k_comment}')
         if error is not None:
             raise Viol('readcode.example', f'{lang}:example_statement_fails', str(error)[:200])
         if not bound:
             raise Viol('readcode.example', f'{lang}:example_binds_nothing', '')
-        ok, why = conv(value, L[k0])
-        if not ok:
-            raise Viol('readcode.example', f'{lang}:binds_another_subarray_than_stated', f'k={k_comment}: {why}')
+        stated = None
+        if k_comment is not None:
+            stated = k_comment - ORIGIN[lang]
+            if not (0 <= stated < n):
+                raise Viol('readcode.example', f'{lang}:states_nonexisting_subarray', f'k={k_comment} n={n}')
+            if position is not None and POSITION.get(stated) != position:
+                raise Viol('readcode.example', f'{lang}:position_word_disagrees_with_k', f'{position} vs k={k_comment}')
+        elif position is not None:
+            stated = {v: k for k, v in POSITION.items()}[position]
+            if stated >= n:
+                raise Viol('readcode.example', f'{lang}:states_nonexisting_subarray', f'{position} of {n}')
+        if stated is not None:
+            ok, why = conv(value, L[stated])
+            if not ok:
+                raise Viol('readcode.example', f'{lang}:binds_another_subarray_than_stated', f'{position or k_comment}: {why}')
+        else:
+            if not any(conv(value, L[k])[0] for k in range(n)):
+                raise Viol('readcode.example', f'{lang}:binds_no_existing_subarray', '')
+            st['probes']['example_without_readable_statement'] = 1
         st['probes']['example_checked'] = st['probes'].get('example_checked', 0) + 1
 
     def _l1(self, lang, code, cwd, path, L, wantv, wanti, st):
         n = len(L)
         if lang == 'numpymemmap' and (wantv not in code or wanti not in code):
             raise Viol('readcode.path', f'{lang}:requested_path_not_used', f'{wantv!r} / {wanti!r}')
-        m = re.search(r'\(k=(\d+)\)', code)
-        pm = re.search(r'read (first|second|third)', code)
+        comments = '\n'.join(l for l in code.splitlines() if l.lstrip().startswith('#'))
+        m = re.search(r'\bk\s*=\s*(\d+)', comments)
+        pm = re.search(r'\b(first|second|third)\b', comments)
         fm = re.search(r'(?m)^def (\w+)\(\s*\w+\s*\):', code)
         fname = fm.group(1) if fm else 'getsubarray'          # the accessor, whatever it is called
         lines = [l for l in code.splitlines() if l.strip() and not l.lstrip().startswith('#')]
@@ -651,7 +682,14 @@ class RaggedReadCode(Engine):
         n = len(L)
         short = lambda e: str(e).split(':')[1].strip() if str(e).count(':') >= 1 else str(e)[:30]   # noqa
         try:
-            res = F.run_ragged_snippet(lang, code, cwd)
+            # the variable the example binds is read from the last statement of the snippet
+            exvar = 'sa'
+            for l in reversed([x for x in code.splitlines() if x.strip()]):
+                mm = re.match(r'\s*(?:IF\b.*?THEN\s+)?(\w+)\s*(?:<-|:=|=)(?!=)', l)
+                if mm:
+                    exvar = mm.group(1)
+                    break
+            res = F.run_ragged_snippet(lang, code, cwd, example_var=exvar)
         except F.IllFormed as e:
             raise Viol('readcode.l2_illformed', f'{lang}:{short(e)}', str(e)[:300])
         except F.LangRuntimeError as e:
